@@ -24,6 +24,10 @@ var (
 	// supported by the compiler, this indicates an error in the compiler
 	// itself, as all parseable evy expressions should be supported.
 	ErrUnsupportedExpression = fmt.Errorf("%w: unsupported expression", ErrInternal)
+	// ErrUnsupportedNode is returned for AST nodes the compiler cannot
+	// translate yet, such as function calls or typed declarations, so
+	// that they are reported rather than silently left out.
+	ErrUnsupportedNode = fmt.Errorf("%w: unsupported node", ErrInternal)
 )
 
 // Compiler is responsible for turning a parsed evy program into
@@ -120,6 +124,10 @@ func (c *Compiler) Compile(node parser.Node) error {
 		if err := c.emit(OpMap, len(node.Pairs)); err != nil {
 			return err
 		}
+	case *parser.EmptyStmt:
+		// blank lines and comments compile to nothing
+	default:
+		return fmt.Errorf("%w: %T", ErrUnsupportedNode, node)
 	}
 	return nil
 }
